@@ -566,3 +566,36 @@ func hasFact(fs []relFact, x, rel, y string) bool {
 	}
 	return false
 }
+
+// valueOrigins: path.Origins extended through loads of local cells (the values
+// stored into the cell anywhere in the function).
+func valueOrigins(v ssa.Value) []ssa.Value {
+	var out []ssa.Value
+	seen := map[ssa.Value]bool{}
+	var rec func(x ssa.Value)
+	rec = func(x ssa.Value) {
+		for _, o := range path.Origins(x) {
+			if seen[o] {
+				continue
+			}
+			seen[o] = true
+			if u, ok := o.(*ssa.UnOp); ok && u.Op == token.MUL {
+				if al, ok := u.X.(*ssa.Alloc); ok {
+					n := 0
+					for _, rf := range *al.Referrers() {
+						if st, ok := rf.(*ssa.Store); ok && st.Addr == ssa.Value(al) {
+							n++
+							rec(st.Val)
+						}
+					}
+					if n > 0 {
+						continue
+					}
+				}
+			}
+			out = append(out, o)
+		}
+	}
+	rec(v)
+	return out
+}
